@@ -113,10 +113,14 @@ CHECKS = {
           "already sounding at a becoming a continuation, every other kept note keeping pitch, kind and dynamics (a map over the part's "
           "timeline, no loop state). Re-joining: the windows [a,t) and [t,b) of a part, one after the other, are the part with the note held "
           "across t written as head + continuation, and that sounds exactly the same (C03's sounding notes, any reference, anything after). "
-          "The score-level composition (chord selection, several parts, both pieces as separate chords) is evaluated on the implementation "
-          "by the oracle (render both sides with get_notes) and tied by correspondence.",
-  "note": "Trusted: Coq kernel; adapters and tick scaling of cut points. Partial: the score-level content and re-join (chord selection + per-chord windows "
-          "composed) are oracle + correspondence only, the part-level statements are theorems; the content theorems need strictly positive note durations. Relative notes whose reference is cut away are outside the window-content oracle (the statement cannot apply).",
+          "AT SCORE LEVEL (timeline of a part = its notes paired with their chords, chord after chord): the timeline of a part in the window "
+          "[a, b) of a score is the clip of its timeline in the score, each kept note under its own chord; cutting a score at any t inside it "
+          "and concatenating the pieces gives the original duration and, for every part present throughout, exactly the original SOUNDING "
+          "notes (Spec of C03: pitch under its chord, onset, duration with continuations, velocity), wherever t falls. Parts absent from "
+          "some chord, and used-then-edited Score objects, are evaluated on the implementation by the oracle.",
+  "note": "Trusted: Coq kernel; adapters and tick scaling of cut points. The score-level theorems are for non-drum parts present in every chord "
+          "(an empty drum part is dropped by Chord.__call__); the window's SOUNDING notes (as opposed to its written timeline) are a theorem only "
+          "through the re-join statement; the content theorems need strictly positive note durations. Relative notes whose reference is cut away are outside the window-content oracle (the statement cannot apply).",
  },
  "C16": {
   "text": "Theorems over Q for each of the 15 tags, every duration d >= 0 and every neighbouring-note context: the pieces of the figure sum "
@@ -209,11 +213,18 @@ CHECKS = {
           "p in Z and every chord in any of the nine modes the written note (name + octave, church modes spelled by pitch class) has MIDI number "
           "60 + p - spelling may differ enharmonically, the sounding pitch never does; every exported voice - and every prefix of chords of it - "
           "lasts exactly the sum of the chord durations whatever the part does (absent, shorter than its chord, rests, ties), so the elements "
-          "of each chord start where the renderer starts them. The tie/rest state machine of Score.to_music21 (ties to "
+          "of each chord start where the renderer starts them. THE VOICE IS THE SOUNDING NOTES: the tie / rest machine (flags last_is_silence and "
+          "old_is_silence, re-armed at every chord) is proved to be a three-field machine over the part's events, and reading the written voice as "
+          "music (a note element starts a note, directly following tied elements prolong it, the rest is silence) gives, for every score whose "
+          "present parts are non-empty and free of drum / pattern notes, exactly each pitched note at its onset with midi 60 + the pitch "
+          "rendered from the last sounded pitch of the part (kept through rests, chord changes and absences) and its duration plus the "
+          "continuations directly following; for parts present throughout that is the Spec of C03 (what the MIDI rendering plays). "
+          "The tie/rest state machine of Score.to_music21 (ties to "
           "the previous element, absent part = rest, padding of short parts, rest flag) is modelled and compared element by element with the "
           "music21 stream; the oracle merges tied elements and compares (onset, pitch, duration) with C03's sounding notes of the implementation. "
           "Four defects of the exporter were repaired (church modes KeyError, continuation after the first note of a chord, short parts, stale rest flag).",
-  "note": "Partial: the equality voice = sounding notes is decided by correspondence + oracle, not by a theorem. Trusted: Coq kernel; gen_tables "
+  "note": "The theorem voice = sounding notes assumes present parts that are not empty (an empty melody in a zero-length chord re-arms the flags "
+          "differently) and tonality degrees 0..11. Trusted: Coq kernel; gen_tables "
           "(MXL_SPELLING, NOTES_TO_ROOT); music21's pitch arithmetic (nameWithOctave -> midi) and stream offsets; adapters. Not explored: the "
           "MusicXML file written by music21 (needs its writer; the stream handed to it is what is checked), continuation after a gap left by a "
           "shorter part (ill-defined in C03's own terms), pitches outside 0..127.",
@@ -221,12 +232,16 @@ CHECKS = {
  "C14": {
   "text": "Theorems: for EVERY chord and EVERY pitch in Z, Chord.parse then Chord.to_pitch is the identity, the result is a scale note "
           "iff the pitch class is in the chord scale, with a normalised value; for a monophonic voice the melody _parse_voice writes for a "
-          "bar lasts exactly the bar whatever tie comes in or goes out. The whole import (bar loop, tie dictionary, voices holding a note "
+          "bar lasts exactly the bar whatever tie comes in or goes out; its CONTENT is, note by note: the incoming tie as a continuation (or a rest "
+          "up to the first note), each input note preceded by a rest for its gap, notated by Chord.parse, with its own length cut at the bar "
+          "line and its velocity, a rest to the bar line, and the cut-off part of the last note returned as the outgoing tie; rendered by the "
+          "Spec of C03 the bar SOUNDS exactly the input notes - pitch (every chord), onset, duration cut at the bar line, velocity. The whole import (bar loop, tie dictionary, voices holding a note "
           "through a bar, silent bars) is modelled and tied by correspondence; the losslessness clause (rendering the result reproduces "
           "every input note's pitch, onset, duration across any number of bar lines, velocity) is evaluated on the implementation by the "
           "oracle. Two import defects (stale tie, held note cut at the bar line) were repaired in /repo.",
   "note": "Trusted: Coq kernel; adapters; set iteration order of voices. Items are built directly (the MIDI-file front end is not installed). "
-          "The end-to-end losslessness of infer_score_with_chords_durations is not a theorem (oracle + correspondence, 1200 cases/run).",
+          "Losslessness is a theorem bar by bar (content, sound, outgoing tie = what the next bar receives); the composition over the bars of "
+          "infer_score_with_chords_durations (tie dictionary across several voices, held and silent bars) is correspondence + oracle.",
  },
  "C11": {
   "text": "Theorems: to_absolute_note along a part's timeline keeps the sounding notes exactly (pitches via the threaded reference, onsets, "
@@ -235,7 +250,10 @@ CHECKS = {
           "like the original part by part; absolute notes read back their "
           "pitch in any chord; in correct_chord_octave the chord octave and the compensating note octaves cancel for every chord-relative note "
           "and absolute notes are untouched; the corrected bass lies in (-6, 6] and the correction terminates (explicit fuel bound). "
-          "decompose_duration is C10's theorem, to_scale_note / to_standard_note rest on C14's parse round trip. All twelve re-notations and "
+          "to_standard_note on chord tones and bass tones keeps the pitch for EVERY chord - any figure with any replacements / additions / "
+          "removals, any tonality and octave - and every value and octave (the candidate notes of _chord_notes_calc are proved to be "
+          "non-relative scale / chromatic notes carrying their own pitch; model tied to Note.to_standard_note by correspondence). "
+          "decompose_duration is C10's theorem, to_scale_note / to_standard_note of absolute notes rest on C14's parse round trip. All twelve re-notations and "
           "their pairwise compositions are evaluated on the implementation by rendering both sides (oracle); to_absolute_note and "
           "correct_chord_octave are also tied to the model by correspondence. Three defects repaired in /repo.",
   "note": "Trusted: Coq kernel; adapters. Partial: to_chord_note/to_extension_note, instrument normalisations, split_too_long_chords and normalize are oracle-only. "
